@@ -51,6 +51,31 @@ def run_one(backend, path, timeout):
     return "unknown", (out + p.stderr)[-400:], dt
 
 
+def run_parallel(query, name="q", timeout=45, order=None):
+    """all solvers of the portfolio at once; the first definite answer wins (the others are left to their time limit)"""
+    safe = "".join(ch if ch.isalnum() else "_" for ch in name)[:60]
+    path = os.path.join(workdir(), f"{safe}-{abs(hash(query)) % 10**10}-{os.getpid()}.smt2")
+    with open(path, "w") as f:
+        f.write(query)
+    t0 = time.time()
+    answer = None
+    with cf.ThreadPoolExecutor(max_workers=len(order or DEFAULT_ORDER)) as ex:
+        futs = {ex.submit(run_one, b, path, timeout): b for b in (order or DEFAULT_ORDER)}
+        for f in cf.as_completed(futs):
+            st, out, dt = f.result()
+            if st != "unknown" and answer is None:
+                answer = (st, out, futs[f])
+            elif st != "unknown" and answer is not None and st != answer[0]:
+                raise CheckerError(f"solvers disagree on {name}: {answer[2]} says {answer[0]}, {futs[f]} says {st}")
+    try:
+        os.remove(path)
+    except OSError:
+        pass
+    if answer is None:
+        return "unknown", "", "none", time.time() - t0
+    return answer[0], answer[1], answer[2], time.time() - t0
+
+
 def run(query, name="q", timeout=20, order=None, agree=False):
     """Sequential portfolio (cheap queries return at once from the first solver)."""
     safe = "".join(ch if ch.isalnum() else "_" for ch in name)[:60]
